@@ -683,7 +683,10 @@ class Node(object):
         """
         Returns a service time for the given customer class.
         """
-        return self.simulation.service_times[self.id_number][ind.customer_class].sample(t=self.now, ind=ind)
+        service_time = self.simulation.service_times[self.id_number][ind.customer_class].sample(t=self.now, ind=ind)
+        if not (service_time >= 0):
+            raise ValueError("Invalid time sampled.")
+        return service_time
 
     def take_servers_off_duty(self, preemption=False):
         """
